@@ -57,3 +57,60 @@ Theorem C16_default_scheme : forall idna_raw p x,
   | other => other end.
 Proof. exact parse_retry_spec. Qed.
 Print Assumptions C16_default_scheme.
+
+(* ---------- conservative extensions: lock-step simulations (Proofs/OptionNeutral*.v) ---------- *)
+From Verif Require Import Lib.Utf8 Proofs.Cleaning Proofs.OptionNeutral Proofs.OptionNeutralDrive Proofs.OptionNeutralLax Proofs.OptionNeutralSpecial Proofs.OptionNeutralCollapse.
+
+(* accept-invalid-code-points changes the result only for inputs that contain invalid UTF-8 *)
+Theorem C16_accept_invalid_conservative : forall idna_raw c b1 b2 x, valid_utf8 (fst (trim_c0space x)) = true ->
+  Parse idna_raw (with_acceptInvalid c b1) x = Parse idna_raw (with_acceptInvalid c b2) x.
+Proof. exact acceptInvalid_Parse. Qed.
+Print Assumptions C16_accept_invalid_conservative.
+
+(* percent-encode-single-percent-sign: only for inputs with a '%' not followed by two hex digits *)
+Theorem C16_single_percent_conservative : forall idna_raw c b1 b2, c_lax c = false -> forall x,
+  pct_ok_runes (runes (clean_sv (c_acceptInvalid c) x)) = true ->
+  Parse idna_raw (with_singlePct c b1) x = Parse idna_raw (with_singlePct c b2) x.
+Proof. exact singlePct_Parse. Qed.
+Print Assumptions C16_single_percent_conservative.
+
+(* skip-drive-letter-normalization: only for inputs containing '|' *)
+Theorem C16_skip_drive_conservative : forall idna_raw c b1 b2 x, ~ In 124 (clean_sv (c_acceptInvalid c) x) ->
+  Parse idna_raw (with_skipDrive c b1) x = Parse idna_raw (with_skipDrive c b2) x.
+Proof. exact skipDrive_Parse. Qed.
+Print Assumptions C16_skip_drive_conservative.
+
+(* collapse-consecutive-slashes: only for inputs with consecutive slashes; and its effect *)
+Theorem C16_collapse_conservative : forall idna_raw c b1 b2, c_skipTrailSlash c = false -> forall x,
+  no_adj_b (runes (clean_sv (c_acceptInvalid c) x)) = true ->
+  Parse idna_raw (with_collapse c b1) x = Parse idna_raw (with_collapse c b2) x.
+Proof. exact collapse_Parse. Qed.
+Print Assumptions C16_collapse_conservative.
+
+Theorem C16_collapse_effect : forall idna_raw c x u, Parse idna_raw (with_collapse c true) x = PUrl u ->
+  IsSpecialScheme c u = true -> Q (u_path u).      (* Q: no empty segment except possibly the last *)
+Proof. exact collapse_effect. Qed.
+Print Assumptions C16_collapse_effect.
+
+(* special-schemes: two tables that agree on the scheme of the input give the same result *)
+Theorem C16_special_schemes_conservative : forall idna_raw c t1 t2 x,
+  (forall pre, scheme_prefix (runes (clean_sv (c_acceptInvalid c) x)) = Some pre -> agree t1 t2 (lowerenc pre)) ->
+  Parse idna_raw (with_special c t1) x = Parse idna_raw (with_special c t2) x.
+Proof. exact special_Parse. Qed.
+Print Assumptions C16_special_schemes_conservative.
+
+(* lax-host-parsing: changes the result only for inputs the strict parser rejects *)
+Theorem C16_lax_host_conservative : forall idna_raw c x u,
+  Parse idna_raw (with_lax c false) x = PUrl u -> Parse idna_raw (with_lax c true) x = PUrl u.
+Proof. exact lax_conservative. Qed.
+Print Assumptions C16_lax_host_conservative.
+
+(* skip-equals affects only the serialization of parameters: '=' omitted only for empty values; the parser ignores it *)
+Theorem C16_skip_equals : forall c (l : list pair),
+  sp_string (with_skipEq c true) l =
+  Lib.GoStr.join [38] (map (fun nv => QueryEscape c (fst nv) ++ (if is_nil (snd nv) then [] else 61 :: QueryEscape c (snd nv))) l).
+Proof. exact skipEq_effect. Qed.
+Print Assumptions C16_skip_equals.
+Theorem C16_skip_equals_parser_neutral : forall idna_raw c b x, Parse idna_raw (with_skipEq c b) x = Parse idna_raw c x.
+Proof. exact skipEq_Parse. Qed.
+Print Assumptions C16_skip_equals_parser_neutral.
